@@ -165,6 +165,7 @@ type Result struct {
 	Obs      string   // harness observation (order-insensitive summary)
 	Log      []string // harness log in execution order
 	Fails    []Fail
+	Notes    []Fail // anomalies that are measured and reported but are not property violations
 	Err      string // engine error text (End == EndError)
 	PanicMsg string
 	Blocked  []string // "thread: op obj" of threads left blocked
@@ -192,34 +193,35 @@ func (r *Result) Sigs() []uint32 {
 
 // Exec is one controlled execution.
 type Exec struct {
-	epoch       uint64
-	threads     []*thread
-	running     *thread
-	prefix      []uint16
-	psigs       []uint32
-	trace       []Decision
-	cost        int
-	noBranch    bool
-	horizon     int
-	sig         uint64
-	points      int
-	maxPts      int
-	nobj        int32
-	seq         int
-	endCh       chan struct{}
-	ended       bool
-	end         EndKind
-	inert       atomic.Bool
-	log         []string
-	obs         string
-	fails       []Fail
-	err         string
-	panicMsg    string
-	onEnd       []func(EndKind)
-	record      bool
+	epoch         uint64
+	threads       []*thread
+	running       *thread
+	prefix        []uint16
+	psigs         []uint32
+	trace         []Decision
+	cost          int
+	noBranch      bool
+	horizon       int
+	sig           uint64
+	points        int
+	maxPts        int
+	nobj          int32
+	seq           int
+	endCh         chan struct{}
+	ended         bool
+	end           EndKind
+	inert         atomic.Bool
+	log           []string
+	obs           string
+	fails         []Fail
+	err           string
+	panicMsg      string
+	onEnd         []func(EndKind)
+	notes         []Fail
+	record        bool
 	releasePoints bool
-	events      []string
-	TimerBudget int // remaining one-shot timer fires / sleeps
+	events        []string
+	TimerBudget   int // remaining one-shot timer fires / sleeps
 }
 
 var (
@@ -583,6 +585,17 @@ func (r *Run) Fail(key, msg string) {
 	r.ex.fails = append(r.ex.fails, Fail{key, msg})
 }
 
+// Note records an anomaly that is reported in the evidence but is not a
+// violation of the property.
+func (r *Run) Note(key, msg string) {
+	for _, f := range r.ex.notes {
+		if f.Key == key {
+			return
+		}
+	}
+	r.ex.notes = append(r.ex.notes, Fail{key, msg})
+}
+
 // SetObs sets the observation summary of this execution (what is counted as a
 // distinct outcome).
 func (r *Run) SetObs(s string) { r.ex.obs = s }
@@ -725,6 +738,7 @@ func Execute(o ExecOpts, body func(*Run), prefix []uint16, sigs []uint32) *Resul
 	res.Obs = ex.obs
 	res.Log = ex.log
 	res.Fails = ex.fails
+	res.Notes = ex.notes
 	res.Err = ex.err
 	res.PanicMsg = ex.panicMsg
 	res.Threads = len(ex.threads)
